@@ -25,6 +25,7 @@ pub(crate) mod verif_common {
         pub last_y: usize,       // last value this thread observed on `yielded` (rely: nobody else moves it while we hold the ticket)
         pub have_y: bool,
         pub polls: usize, pub max_polls: usize,
+        pub ticket: usize, pub have_ticket: bool, pub flag_mode: u8,
         pub nw: usize, pub nl: usize, pub first_w: E, pub last_w: E, pub first_l: E, pub last_l: E,
     }
     pub struct G(pub UnsafeCell<St>);
@@ -32,6 +33,7 @@ pub(crate) mod verif_common {
     pub static ST: G = G(UnsafeCell::new(St {
         n: 0, log: [E0; LOGN], nowrap: false, lim: usize::MAX,
         loc_r: 0, loc_y: 0, loc_c: 0, last_y: 0, have_y: false, polls: 0, max_polls: 2,
+        ticket: 0, have_ticket: false, flag_mode: 0,
         nw: 0, nl: 0, first_w: E0, last_w: E0, first_l: E0, last_l: E0,
     }));
     pub fn st() -> &'static mut St { unsafe { &mut *ST.0.get() } }
@@ -61,6 +63,46 @@ pub(crate) mod verif_common {
     pub fn c_inc(a: &AtomicCounter) -> usize { c_faa(a, 1) }
     pub fn c_cur(a: &AtomicCounter) -> usize { let r: usize = kani::any(); push(E { loc: a as *const AtomicCounter as usize, kind: 2, arg: 0, ret: r, ord: 0 }); r }
     pub fn c_store(a: &AtomicCounter, v: usize) { push(E { loc: a as *const AtomicCounter as usize, kind: 3, arg: v, ret: 0, ord: 4 }); }
+
+    // ---- swap on the crate's counter (known-size consuming kinds: skip_to_end) ----
+    pub fn c_swap(a: &AtomicCounter, v: usize) -> usize { let r: usize = kani::any(); push(E { loc: a as *const AtomicCounter as usize, kind: 3, arg: v, ret: r, ord: 4 }); r }
+
+    // ---- stubs of the std atomics themselves (wrapped-iterator protocol: three locations, orderings visible) ----
+    // environment model: `reserved` is pure havoc (no-wrap regime); `yielded` is havoc on loads, and -- rely, discharged by the
+    // protocol lemma -- nobody else moves it between the load that admitted this thread and this thread's publishing fetch_add;
+    // `completed` is havoc, or pinned by the harness (flag_mode 1 = already set, 2 = never set by others).  Fruitless polls of the
+    // waiting loop are bounded by max_polls (bounded stand-in).
+    pub fn locid(a: usize) -> u8 { let s = st(); if a == s.loc_r { 1 } else if a == s.loc_y { 2 } else if a == s.loc_c { 3 } else { 0 } }
+    pub fn a_faa(a: &AtomicUsize, val: usize, o: Ordering) -> usize {
+        let r: usize = kani::any();
+        let l = locid(a as *const AtomicUsize as usize);
+        if l == 1 { kani::assume(r <= usize::MAX - val); st().ticket = r; st().have_ticket = true; }
+        if l == 2 { kani::assume(st().have_y && r == st().last_y); }
+        push(E { loc: l as usize, kind: 1, arg: val, ret: r, ord: oc(o) });
+        r
+    }
+    pub fn a_load(a: &AtomicUsize, o: Ordering) -> usize {
+        let r: usize = kani::any();
+        let l = locid(a as *const AtomicUsize as usize);
+        if l == 2 {
+            let s = st();
+            s.polls += 1;
+            if s.polls > s.max_polls && s.have_ticket { kani::assume(r >= s.ticket); }
+            s.last_y = r; s.have_y = true;
+        }
+        push(E { loc: l as usize, kind: 2, arg: 0, ret: r, ord: oc(o) });
+        r
+    }
+    pub fn a_store(a: &AtomicUsize, v: usize, o: Ordering) { push(E { loc: locid(a as *const AtomicUsize as usize) as usize, kind: 3, arg: v, ret: 0, ord: oc(o) }); }
+    pub fn b_load(_a: &AtomicBool, o: Ordering) -> bool {
+        let mut r: bool = kani::any();
+        let s = st();
+        if s.flag_mode == 1 { r = true; }
+        if s.flag_mode == 2 { r = false; }
+        push(E { loc: 3, kind: 5, arg: 0, ret: r as usize, ord: oc(o) });
+        r
+    }
+    pub fn b_store(_a: &AtomicBool, v: bool, o: Ordering) { push(E { loc: 3, kind: 6, arg: v as usize, ret: 0, ord: oc(o) }); }
 
     // ---- pure oracles ----
     pub fn clamp_end(b: usize, n: usize, len: usize) -> usize { if b >= len { b } else if n <= len - b { b + n } else { len } }
